@@ -65,3 +65,16 @@ stage_plain_race() {
     echo "INFRA: race build failed:" >&2; head -40 "$s/build-race.log" >&2; return 2
   fi
 }
+
+# stage_inst_386 <scratch>: the instrumented flavour once more for GOARCH=386 (a machine word has 32 bits),
+# reduced to cmd/vharness386 = the packages that build without cgo; a stage of its own under $scratch/x386
+stage_inst_386() {
+  local s=$1
+  mkdir -p "$s/x386" || return 2
+  stage_inst "$s/x386" || return 2
+  (cd "$s/x386/inst" && GOARCH=386 CGO_ENABLED=0 go build -tags verif -o "$s/vharness386" ./cmd/vharness386) > "$s/build-386.log" 2>&1
+  if [ $? -ne 0 ]; then
+    echo "INFRA: 386 build failed:" >&2; head -40 "$s/build-386.log" >&2; return 2
+  fi
+  rm -rf "$s/x386"
+}
